@@ -22,7 +22,7 @@ const POOL: &[&str] = &[
     "adv$tag=a", "advert$tag=a", "advice$tag=b", "@@advert$tag=a", "@@advice$tag=b", "adv$important,tag=a",
     "adv$script", "advert$script", "advice$image", "@@advice$script",
     "adv$3p", "advert$3p", "|https://x.com/adv", "adv|", "advert|", "adv*x", "adv^", "advert^",
-    "/adv[0-9]/", "/advi?ce/", "/ADV/$match-case", "||adv.net^", "||adv.net/adv",
+    "/adv[0-9]/", "/advi?ce/", "/adv[0-/", "/ADV/$match-case", "||adv.net^", "||adv.net/adv",
     "adv$domain=x.com", "advert$domain=x.com", "advice$domain=~x.com",
     "adv$redirect=a", "advert$redirect-rule=b", "||x.com^$csp=d1", "||x.com^$csp=d2", "*$removeparam=q", "adv$removeparam=q",
     // token-less rules (every token is a single character): all land in the wildcard bucket, so
@@ -251,6 +251,25 @@ fn check(ctx: &Ctx) -> i32 {
         let rules: Vec<&str> = idx.iter().map(|&j| POOL[j]).collect();
         check_list(&rules, &reqs, &res, l);
     });
+    // group sizes: n rules that all land in one bucket (their only indexable token is `adv`) and
+    // are all fusable, n = 1..=N: whatever the optimiser does with large groups (chunking, RegexSet
+    // limits), every rule must keep matching its own URL and nothing else
+    let n_max: u64 = ctx.tier.pick(150, 400);
+    ctx.bound("group_size_max", n_max);
+    ctx.par_range("group sizes", n_max, 1, |i, l| {
+        let n = i as usize + 1;
+        let res = ResourceStorage::from_resources(vh::net::std_resources());
+        let rules: Vec<String> = (0..n).map(|k| format!("/adv/x{:03}", k)).collect();
+        let refs: Vec<&str> = rules.iter().map(|s| s.as_str()).collect();
+        let mut reqs: Vec<Req> = vec![];
+        for k in 0..n + 1 {
+            let url = format!("https://x.com/adv/x{:03}", k);
+            if let Ok(req) = adblock::request::Request::new(&url, "https://y.com/", "script") {
+                reqs.push(Req { req, url, source: "https://y.com/".into(), ty: "script" });
+            }
+        }
+        check_list(&refs, &reqs, &res, l);
+    });
     // the rule cube (vh::alpha): rules with the same option set are fusion candidates, rules whose
     // option sets differ in one respect must stay apart. Requests: the shared URL universe with two
     // (initiator, type) pairs per URL.
@@ -300,7 +319,7 @@ fn check(ctx: &Ctx) -> i32 {
     });
     ctx.finish(
         "model_checking",
-        "all ordered lists of <= k rules and all k'-element subsets of the rule alphabet (rules that share the wildcard / 'adv*' buckets and differ in one fusion-relevant attribute: pattern, exception, important, tag, type, party, anchors, regex, match-case, hostname, domain, redirect, csp, removeparam); five real blockers per list (built optimised, built unoptimised, unoptimised + optimize() twice, unoptimised + optimize() after every tag switch, built optimised without the last rule + add_filter(last rule) + optimize()), under every tag subset, against the request universe; all verdict fields and the CSP set must agree; plus the rule cube: all pairs (thorough: triples) of 53 pattern shapes under each of 19 option sets, as blocking rules and as exceptions, and 12 same-bucket patterns under every two different option sets; non-trivial = the unoptimised engine reports anything",
+        "all ordered lists of <= k rules and all k'-element subsets of the rule alphabet (rules that share the wildcard / 'adv*' buckets and differ in one fusion-relevant attribute: pattern, exception, important, tag, type, party, anchors, regex, match-case, hostname, domain, redirect, csp, removeparam); five real blockers per list (built optimised, built unoptimised, unoptimised + optimize() twice, unoptimised + optimize() after every tag switch, built optimised without the last rule + add_filter(last rule) + optimize()), under every tag subset, against the request universe; all verdict fields and the CSP set must agree; plus n same-bucket fusable rules for every n up to a bound (group sizes), plus the rule cube: all pairs (thorough: triples) of 53 pattern shapes under each of 19 option sets, as blocking rules and as exceptions, and 12 same-bucket patterns under every two different option sets; non-trivial = the unoptimised engine reports anything",
         &["differential: the unoptimised engine is the reference (its own correctness is C01's subject)"],
     )
 }
